@@ -62,7 +62,7 @@ TCrash ==     \* the steps between the start and the kill are not replayed: the 
   /\ Is("crash") /\ mode # "idle" /\ LoadDisk(E.state)
   /\ VolReset /\ verdict' = "none" /\ UNCHANGED <<ord, rules, env, scn>>
   /\ ev' = [a |-> "crash", inexec |-> E.inexec]
-  /\ g' = Fold(g, ev', ws', cache', hist', fstab', {})
+  /\ g' = Fold(g, ev', ws', cache', hist', fstab', rdir', {})
 
 \* the state an invocation starts from is logged too (crash scenarios omit it)
 PreMatch == IF Has(E, "state") /\ ~SM(ws, cache, hist, fstab, rdir, E.state)
@@ -76,6 +76,8 @@ TUser ==
      \/ Is("delcache") /\ DelCache(E.n)
      \/ Is("delruler") /\ DelRuler(E.what)
      \/ Is("env") /\ ChangeEnv(E.v)
+     \/ Is("mv") /\ Move(E.p, E.q)
+     \/ Is("corrupt") /\ Corrupt(E.what, E.rid)
      \/ Is("build") /\ PreMatch /\ StartBuildWith(E.g, fstab, IF Has(E, "serial") THEN [serial |-> E.serial] ELSE EmptyF)
      \/ Is("clean") /\ PreMatch /\ StartClean(E.g)
 
@@ -133,6 +135,7 @@ AllProps ==
   /\ Chk("C09_OnlyScopeTouched", C09_OnlyScopeTouched) /\ Chk("C09_Touched", T_C09_Touched)
   /\ Chk("C10_CleanMovesToCache", C10_CleanMovesToCache) /\ Chk("C10_BuildBringsBack", C10_BuildBringsBack)
   /\ Chk("C11_CrashStateSane", C11_CrashStateSane) /\ Chk("C11_Recovers", C11_Recovers)
+  /\ Chk("C12_InvalidRejected", C12_InvalidRejected) /\ Chk("C16_DamagedRejected", C16_DamagedRejected)
   /\ Chk("C17_ContradictionReported", C17_ContradictionReported) /\ Chk("C17_HistoryKept", C17_HistoryKept)
   /\ Chk("C18_Twin", T_C18_Twin)
   /\ Chk("C20_StatusTruth", C20_StatusTruth)
